@@ -406,7 +406,10 @@ def decide(prop, spec, tier, seed, workdir, t0, args):
     baseline = json.load(open(bpath)) if os.path.exists(bpath) else {}
     base = set(baseline.get(prop, {}).get(tier, baseline.get(prop, {}).get('quick', [])))
     if args.update_baseline:
-        baseline.setdefault(prop, {})[tier] = sorted(o['name'] for o in obs if o['status'] == 'discharged')
+        new = set(o['name'] for o in obs if o['status'] == 'discharged')
+        if os.environ.get('VERIF_ONLY'):
+            new |= set(baseline.get(prop, {}).get(tier, []))
+        baseline.setdefault(prop, {})[tier] = sorted(new)
         json.dump(baseline, open(bpath, 'w'), indent=1, sort_keys=True)
         base = set(baseline[prop][tier])
     known = load_known()
